@@ -58,6 +58,10 @@ ALPHABET = [
     ('invalid-json', 500, JSON_CT, ('raw', lambda t: f'Internal error #{t}'), 'full'),
     ('invalid-json-marker', 500, JSON_CT, ('raw', lambda t: f'Assert_failure {MARK}:1918 #{t}'), 'full'),
     ('text-marker', 500, 'text/plain', ('raw', lambda t: f'Assert_failure src/lib_shell/{MARK}:1918:11 #{t}'), 'full'),
+    # the same failure reported at the END of a long body (a backtrace / a proxy's error page in front of it): where in the body it stands
+    # does not matter
+    ('text-marker-late', 500, 'text/plain', ('raw', lambda t: 'Raised at Lwt.Miscellaneous.poll in file "src/core/lwt.ml", line 3077\n' * 9 + f'Assert_failure src/lib_shell/{MARK}:1918:11 #{t}'), 'full'),
+    ('text-marker-very-late', 502, 'text/html', ('raw', lambda t: '<html><body><h1>502</h1><pre>' + 'upstream said: ' * 40 + f'{MARK} #{t}</pre></body></html>'), 'full'),
     ('text', 502, 'text/html', ('raw', lambda t: f'<html>Bad gateway #{t}</html>'), 'full'),
     ('text-noct', 500, None, ('raw', lambda t: f'oops #{t}'), 'full'),
     ('jsonlike-text', 500, 'text/plain', ('json', lambda t: [E('node.x', 'temporary', t)]), 'full'),
@@ -306,7 +310,7 @@ def run(ctx):
     cases = [[]]
     for ln in range(1, (2 if quick else 3) + 1):
         cases.extend(list(c) for c in itertools.product(names, repeat=ln))
-    rep = ['tmp', 'text-marker', 'perm-marker', 'nonlist-json-marker']
+    rep = ['tmp', 'text-marker-late', 'perm-marker', 'nonlist-json-marker']
     for j in range(0, 7):
         for pre in itertools.product(rep[:3 if quick or j >= 5 else 4], repeat=j):
             if j >= 5 and quick and len(set(pre)) > 2:
